@@ -261,6 +261,8 @@ pub fn mintadmit(data: &[u8]) {
             foreign: if u.int_in_range(0u8..=3)? == 0 { u.int_in_range(1u8..=3)? } else { 0 },
             own_mint_reward: u.int_in_range(0u8..=2).unwrap_or(0),
             offered_to: u.int_in_range(0u8..=2)?,
+            partner_badge: u.int_in_range(0u8..=2).unwrap_or(0) == 0,
+            key_first_byte: u.arbitrary().unwrap_or(0),
         })
     })() else {
         return;
